@@ -1,1 +1,66 @@
-fn main(){}
+use std::time::Instant;
+use vh::alphabet::Tier;
+use vh::props::{self, Ctx};
+use vh::report::{Report, quiet_panics};
+
+fn arg(args: &[String], name: &str) -> Option<String> {
+    args.iter().position(|a| a == name).and_then(|i| args.get(i + 1).cloned())
+}
+
+fn main() {
+    let args: Vec<String> = std::env::args().collect();
+    if args.len() < 2 {
+        eprintln!("usage: xplore run <PROP> --tier quick|thorough --config NAME --out FILE [--only SUBSTR]\n       xplore replay <FILE>\n       xplore list");
+        std::process::exit(2);
+    }
+    // detection override is installed before the first use of any cipher
+    match std::env::var("VERIF_DETECT").as_deref() {
+        Ok("off") => cpufeatures::__seam::set_override(Some(false)),
+        _ => {}
+    }
+    match args[1].as_str() {
+        "list" => {
+            for s in vh::subjects::all_subjects() {
+                println!("{} {} bs={} keysize={} lens={:?} size_of={}", s.krate(), s.name(), s.bs(), s.key_size(), s.key_lens(), s.size_of());
+            }
+        }
+        "run" => {
+            quiet_panics();
+            let prop = args[2].clone();
+            let tier = match arg(&args, "--tier").as_deref() {
+                Some("thorough") => Tier::Thorough,
+                _ => Tier::Quick,
+            };
+            let config = arg(&args, "--config").unwrap_or_else(|| "N0".into());
+            let ctx = Ctx { tier, config: config.clone(), only: arg(&args, "--only"), crates: arg(&args, "--crates").map(|c| c.split(',').map(|x| x.to_string()).collect()) };
+            let t0 = Instant::now();
+            let mut rep = Report::new();
+            if let Err(e) = props::run(&prop, &ctx, &mut rep) {
+                eprintln!("xplore: {e}");
+                std::process::exit(2);
+            }
+            let js = rep.to_json(&prop, &config, tier, t0.elapsed().as_secs_f64());
+            let text = serde_json::to_string_pretty(&js).unwrap();
+            match arg(&args, "--out") {
+                Some(f) => std::fs::write(f, text).unwrap(),
+                None => println!("{text}"),
+            }
+        }
+        "replay" => {
+            let v: serde_json::Value = serde_json::from_str(&std::fs::read_to_string(&args[2]).unwrap()).unwrap();
+            let prop = v["property"].as_str().unwrap();
+            let mut failed = 0;
+            for round in 0..2 {
+                match props::replay(prop, &v["case"]) {
+                    Ok(()) => println!("replay {round}: property holds on this case"),
+                    Err(m) => {
+                        failed += 1;
+                        println!("replay {round}: VIOLATED: {m}")
+                    }
+                }
+            }
+            std::process::exit(if failed == 2 { 1 } else if failed == 0 { 0 } else { 3 });
+        }
+        _ => std::process::exit(2),
+    }
+}
